@@ -89,6 +89,12 @@ def special(rng):
         d = {'$repeat': {n: rng.randint(1, 2) for n in names}, 'v': '$"' + '-'.join('{$repeat:%s}' % n for n in names) + '"'}
         d.update(manykeys(rng, 5))
         return [('d', [], d)]
+    if rng.random() < 0.25:
+        # evaluation order between siblings matters when a map-form $merge is expanded in place
+        d = {'defaults': {'port': 80, 'host': 'h'}, 'frontend': {'$merge': 'defaults', 'own': 1}}
+        for k in rng.sample(['a0', 'listen', 'zz', 'b1', 'm5', 'x9', 'ff'], rng.randint(2, 5)):
+            d[k] = rng.choice(['$replace:frontend.port', '$merge:frontend.host', '$"{frontend.port}"', {'$merge': 'frontend', 'k': 1}])
+        return [('d', [], d)]
     if rng.random() < 0.3:
         # several keys that evaluate to the same string: whatever the result is, it must be the same every time
         d = {'tier': 'web', 'region': 'eu', 'm': {'$"{tier}-{region}"': 1, 'web-eu': 2, '$"{tier}-eu"': 3, 'other': 4}}
